@@ -162,3 +162,54 @@ func extractC16(c *Ctx) {
 	}
 	c.Add("c16WatcherOrder", "List String", LeanStrList(order), src, "order in which aggregateWatcher.Close closes the router watchers")
 }
+
+func init() { register("c16wait", extractC16Wait) }
+
+// Statements of AdaptedClientConn.waitForReady (grpcadapter/conn.go) before its `for` and inside the loop body, in
+// source order: GetState / Connect / WaitForStateChange calls, `connState == connectivity.X` comparisons, returns.
+func extractC16Wait(c *Ctx) {
+	const file = "grpcadapter/conn.go"
+	before, inLoop := []string{"<waitForReady not found>"}, []string{"<waitForReady not found>"}
+	src := ""
+	if fd := c.FuncDecl(file, "AdaptedClientConn", "waitForReady"); fd != nil {
+		src = c.Pos(fd)
+		before, inLoop = nil, []string{"<no for statement>"}
+		events := func(n ast.Node) []string {
+			var out []string
+			ast.Inspect(n, func(n ast.Node) bool {
+				switch x := n.(type) {
+				case *ast.DeferStmt:
+					return false
+				case *ast.CallExpr:
+					if se, ok := x.Fun.(*ast.SelectorExpr); ok {
+						switch se.Sel.Name {
+						case "GetState", "Connect", "WaitForStateChange":
+							out = append(out, se.Sel.Name)
+						}
+					}
+				case *ast.BinaryExpr:
+					if x.Op == token.EQL {
+						if se, ok := x.Y.(*ast.SelectorExpr); ok {
+							if id, ok := se.X.(*ast.Ident); ok && id.Name == "connectivity" {
+								out = append(out, "check:"+se.Sel.Name)
+							}
+						}
+					}
+				case *ast.ReturnStmt:
+					out = append(out, "return")
+				}
+				return true
+			})
+			return out
+		}
+		for _, st := range fd.Body.List {
+			if fs, ok := st.(*ast.ForStmt); ok {
+				inLoop = events(fs.Body)
+				break
+			}
+			before = append(before, events(st)...)
+		}
+	}
+	c.Add("c16WaitBeforeLoop", "List String", LeanStrList(before), src, "waitForReady: statements before the for loop")
+	c.Add("c16WaitInLoop", "List String", LeanStrList(inLoop), src, "waitForReady: statements inside the for loop body (the Shutdown check must be here)")
+}
